@@ -841,6 +841,12 @@ def run(ctx):
     view = RenamedRules(ctx, {"C12.Q": "C11.Q", "C12.K": "C11.Qk", "C12.D": "C11.Qd", "C12.A": "C11.Qa", "C12.": "C11.Q"})
     c12.check_queues(view, exe_)
     c12.check_keys(view, exe_)
+    # ... and that only requests the network stack accepted are outstanding: in the methods that touch the request / response queues no
+    # state change precedes a raise, an assert or a call into the network stack (which may refuse) - a request filed before a refused
+    # `put` stays at the head of its queue and takes the responses of the next accepted one (rule shared with C12.F / C13.U)
+    from . import c13
+    queues_ = ("_epr_create_requests", "_epr_recv_requests", "_pending_epr_responses")
+    c13.check_fault_atomicity(ctx, "C11.F", only=lambda name, fn: any(isinstance(x, ast.Attribute) and x.attr in queues_ for x in ast.walk(fn)), floor=1)
     # 0 is an ordinary id / value / address: nothing int-valued may be tested by truthiness (nqsa/truth.py)
     from .. import truth
     truth.check(ctx, "C11.Z", ['netqasm.sdk.build_epr', 'netqasm.sdk.epr_socket', 'netqasm.qlink_compat', 'netqasm.backend.executor'])
